@@ -1,6 +1,7 @@
 CONSTANTS
   Source = "tables"
   Scale = "small"
+  Reader = "asis"
 INIT Init
 NEXT Next
 INVARIANT Convergent
